@@ -202,11 +202,13 @@ class Beam(_Simu):
             return
 
         # Euler-Bernoulli: transverse v/w use Hermitian shape functions (couple
-        # force and moment DOFs); axial / torsion / pure-rotation DOFs use the
-        # Lagrange path from the base class.
+        # force and moment DOFs). The unknowns name global axes: which of them is
+        # axial / transverse depends on the member's inclination, so every
+        # component goes through the beam shape functions projected on the global
+        # axes (for a member along x this is the Lagrange path for "x" and "rx").
         beamStructure = self.structure
         all_unknowns = self.Get_unknowns(problemType)
-        hermitian = set(all_unknowns) - {"x", "rx"}
+        hermitian = set(all_unknowns)
         lagrange_idx = [i for i, u in enumerate(unknowns) if u not in hermitian]
         hermitian_idx = [i for i, u in enumerate(unknowns) if u in hermitian]
 
